@@ -1899,3 +1899,362 @@ def check_C13(tier):
 C13_THEOREMS = ["YLex.lexAll_total"]
 C13_MODULES = ["Yv.Proofs.YLexTotal"]
 C13_LEVEL = "proof"
+
+
+# ------------------------------------------------------------------------------------------- C14
+
+import hashlib  # noqa: E402
+
+
+def check_C14(tier):
+    pid = "C14"
+    rng = random.Random(common.seed() * 1000003 + 14)
+    ok, msg = prebuild()
+    if not ok:
+        return build_failure(pid, tier, msg)
+    proof = common.prove(C14_THEOREMS, C14_MODULES)
+    work = common.tmpdir("c14")
+    cli = os.path.join(common.BIN, "yaccgo")
+    srcs = []
+    for f in sorted(glob.glob(os.path.join(common.REPO, "examples", "*.y"))):
+        srcs.append(("example:" + os.path.basename(f), open(f, encoding="utf-8").read()))
+    n = 25 if tier == "quick" else 200
+    for i in range(n):
+        sp = gen.rand_grammar(rng, max_t=6, max_n=5, p_prec=0.7, p_lit=0.4, big=(i % 5 == 4))
+        xs = xrun.xspec(sp, rng)
+        srcs.append(("rand:%d" % i, xrun.render_x(xs, "go", "p", False, False)))
+    for i in range(5 if tier == "quick" else 40):
+        srcs.append(("file:%d" % i, gen.render_file(gen.file_spec(rng), rng)))
+    N = 6 if tier == "quick" else 20
+    optsets = [("go", []), ("go", ["-u"]), ("go", ["-o"]), ("go", ["-o", "-u"]), ("typescript", [])]
+    jobs = []
+    for si, (name, src) in enumerate(srcs):
+        inp = os.path.join(work, "s%d.y" % si)
+        open(inp, "w", encoding="utf-8").write(src)
+        for oi, (target, flags) in enumerate(optsets):
+            for k in range(N):
+                jobs.append((si, oi, k, [cli, "generate"] + flags + [target, inp, os.path.join(work, "o_%d_%d_%d" % (si, oi, k))]))
+
+    def one(job):
+        si, oi, k, cmd = job
+        try:
+            p = subprocess.run(cmd, stdout=subprocess.DEVNULL, stderr=subprocess.DEVNULL, timeout=60, cwd=work)
+            rc = p.returncode
+        except subprocess.TimeoutExpired:
+            rc = -9
+        try:
+            h = hashlib.sha256(open(cmd[-1], "rb").read()).hexdigest()
+        except FileNotFoundError:
+            h = None
+        return (si, oi, k, rc, h)
+    with ThreadPoolExecutor(max_workers=16) as ex:
+        results = list(ex.map(one, jobs))
+    # twice in one process, through the generator entry points
+    injobs = []
+    for si, (name, src) in enumerate(srcs):
+        for oi, (target, flags) in enumerate(optsets):
+            for k in range(2):
+                injobs.append({"id": "%d|%d|%d" % (si, oi, k), "src": src, "out": os.path.join(work, "i_%d_%d_%d" % (si, oi, k)),
+                               "target": target, "unpack": "-u" in flags, "object": "-o" in flags})
+    common.sh([common.BIN + "/yharness", "xgen"], inp="".join(json.dumps(j) + "\n" for j in injobs).encode())
+    groups = {}
+    for (si, oi, k, rc, h) in results:
+        groups.setdefault((si, oi), []).append((rc, h))
+    for j in injobs:
+        si, oi, k = [int(x) for x in j["id"].split("|")]
+        try:
+            h = hashlib.sha256(open(j["out"], "rb").read()).hexdigest()
+        except FileNotFoundError:
+            h = None
+        groups[(si, oi)].append(("inproc", h))
+    violations, samples = [], []
+    generated = 0
+    for (si, oi), rs in sorted(groups.items()):
+        hs = set(h for _, h in rs)
+        if None not in hs:
+            generated += 1
+        if len(hs) > 1 and hs != {None}:
+            # different bytes (or generated in some runs only)
+            a = next(k for (s2, o2, k, rc, h) in results if s2 == si and o2 == oi)
+            violations.append({"key": common.finding_key({"src": srcs[si][1], "opts": optsets[oi]}),
+                               "what": "two runs on the same grammar and options give different output",
+                               "replay": {"property": pid, "grammar_file": srcs[si][1], "options": optsets[oi],
+                                          "distinct_outputs": len(hs), "runs": len(rs)}})
+    samples.append({"grammar": srcs[0][0], "options": optsets[0], "sha256_of_runs": sorted(set(str(h) for _, h in groups[(0, 0)]))})
+    cov = {"evaluations": len(results) + len(injobs), "distinct_nontrivial": generated,
+           "rule": "the repository's example grammars + random grammars with up to 14 tokens/nonterminals, precedence and literals + random rendered files; each with the option sets go, go -u, go -o, go -o -u, typescript; %d runs in fresh processes (Go randomises every map iteration) and 2 runs in one process; outputs compared byte for byte; distinct = (grammar, option set) pairs that generate a file" % N,
+           "samples": samples, "runs_per_pair": N + 2, "trusted_base": TRUSTED,
+           "partial": ["set-invariance of the lookahead stage under reordering of its relation lists is assumed by the order-irrelevance argument and validated by the repeated runs and by C03's oracle comparison"]}
+    return common.conclude(pid, tier, C14_LEVEL, proof, [], violations, cov, [])
+
+
+C14_THEOREMS = []
+C14_MODULES = []
+C14_LEVEL = "exploration"
+
+
+# ------------------------------------------------------------------------------------------- C18
+
+def dot_escape(nm):
+    nm = nm.strip('"')
+    if len(nm) > 9 and nm.startswith("$operator"):
+        nm = "'" + nm[9:] + "' "
+    return nm.replace("<", "\\<").replace(">", "\\>")
+
+
+def item_str(g, names, r, d):
+    lhs, rhs, _ = g.rules[r]
+    s = names[lhs].strip('"') + "-\\>"
+    if not rhs:
+        return s + "ε"
+    for i, x in enumerate(rhs):
+        if i == d:
+            s += "•"
+        s += " " + dot_escape(names[x])
+    if len(rhs) == d:
+        s += "•"
+    return s
+
+
+def split_top(s, sep="|"):
+    out, cur, depth = [], "", 0
+    for ch in s:
+        if ch == "{":
+            depth += 1
+        elif ch == "}":
+            depth -= 1
+        if ch == sep and depth == 0:
+            out.append(cur)
+            cur = ""
+        else:
+            cur += ch
+    out.append(cur)
+    return out
+
+
+def check_C18(tier):
+    pid = "C18"
+    rng = random.Random(common.seed() * 1000003 + 18)
+    ok, msg = prebuild()
+    if not ok:
+        return build_failure(pid, tier, msg)
+    proof = common.prove(C18_THEOREMS, C18_MODULES)
+    cases = sweep.make_cases(tier, rng, n_random=150 if tier == "quick" else 3000, n_tiny=100 if tier == "quick" else 2000, big=5 if tier == "quick" else 60)
+    safe = []
+    for c in cases:
+        # names that contain the renderer's own separators cannot be read back (DESIGN §5 C18)
+        if any(ch in c["src"] for ch in ["'|'", "'{'", "'}'", "'\"'", "'<'", "'>'", "'%'"]):
+            continue
+        safe.append(c)
+    inp = "".join(json.dumps({"id": c["id"], "src": c["src"]}) + "\n" for c in safe).encode()
+    p = common.sh([common.BIN + "/yharness", "views"], inp=inp, timeout=900)
+    blocks = parse_blocks(p.stdout.decode(errors="replace"), "CASE", "ENDCASE")
+    violations, ties, samples = [], [], []
+    nstates = 0
+    accepted = 0
+    for c in safe:
+        lines = blocks.get(c["id"], [])
+        if not lines or any(l.startswith("REFUSE") for l in lines):
+            continue
+        accepted += 1
+        g = cfg.G(lines)
+        names = {k: v["name"] for k, v in g.syms.items()}
+        states = [[tuple(int(x) for x in it.split(".")) for it in l.split()[3:]] for l in lines if l.startswith("STATE ")]
+        gotos = [tuple(int(x) for x in l.split()[1:]) for l in lines if l.startswith("GOTO ")]
+        rows = [[int(x) for x in l.split()[2:]] for l in lines if l.startswith("ROW ")]
+        las = [(int(f[1]), int(f[2]), [int(x) for x in f[3:]]) for f in (l.split() for l in lines) if f[0] == "LA"]
+        n = len(rows)
+        err, acc = n + 100, n + 200
+        nstates += n
+        why = None
+        if any(l.startswith("DOTPANIC") for l in lines):
+            why = "DrawGrammar panics"
+        # ---- DOT
+        nodes = {}
+        for l in lines:
+            if l.startswith("DOTNODE "):
+                f = l.split(" ", 3)
+                nodes[f[1]] = (f[2] == "1", unq(f[3]))
+        edges = set()
+        for l in lines:
+            if l.startswith("DOTEDGE "):
+                f = l.split(" ", 3)
+                lab = unq(f[3])
+                if len(lab) >= 2 and lab[0] == '"' and lab[-1] == '"':
+                    lab = lab[1:-1]
+                edges.add((f[1], f[2], lab))
+        exp_edges = set()
+        for q_, row in enumerate(rows):
+            for x, d in enumerate(row):
+                if d != err and d != acc and d >= 0:
+                    exp_edges.add(("state_%d" % q_, "state_%d" % d, dot_escape(names[x])))
+        if why is None and set(nodes) != set("state_%d" % i for i in range(n)):
+            why = "graph nodes are not exactly the states: %s" % sorted(nodes)
+        if why is None and edges != exp_edges:
+            why = "graph edges differ from the shift/goto entries of the table: extra %s missing %s" % (sorted(edges - exp_edges)[:3], sorted(exp_edges - edges)[:3])
+        if why is None:
+            for q_ in range(n):
+                filled, label = nodes["state_%d" % q_]
+                parts = split_top(label[1:-1] if len(label) >= 2 and label[0] == '"' else label)
+                head = parts[0]
+                items_txt = split_top(parts[1][1:-1]) if len(parts) > 1 and parts[1].startswith("{") else []
+                red_txt = split_top(parts[2][1:-1]) if len(parts) > 2 else []
+                exp_items = [item_str(g, names, r, d) for (r, d) in states[q_]]
+                exp_red = ["%s: reduce rule at %d" % (dot_escape(names[x]), -d) for x, d in enumerate(rows[q_]) if d < 0]
+                if head != "<f0> state %d" % q_:
+                    why = "node header %r for state %d" % (head, q_)
+                elif items_txt != exp_items:
+                    why = "items shown for state %d are %s, the state holds %s" % (q_, items_txt, exp_items)
+                elif red_txt != exp_red:
+                    why = "reduce annotations of state %d are %s, the table has %s" % (q_, red_txt, exp_red)
+                elif filled != (acc in rows[q_]):
+                    why = "accept decoration of state %d is %s" % (q_, filled)
+                if why:
+                    break
+        # ---- text listing
+        listing = ""
+        for l in lines:
+            if l.startswith("LISTING "):
+                listing = unq(l.split(" ", 1)[1])
+        if why is None:
+            sec = listing.split("===========SHOW TRANS================")[0]
+            blocks_txt = sec.split("--------state ")[1:]
+            if len(blocks_txt) != n:
+                why = "listing shows %d states, the automaton has %d" % (len(blocks_txt), n)
+            for bi, b in enumerate(blocks_txt):
+                if why:
+                    break
+                bl = b.split("\n")
+                if not bl[0].startswith("%d-" % bi):
+                    why = "listing state header %r at position %d" % (bl[0], bi)
+                    break
+                gi = bl.index("GOTO:") if "GOTO:" in bl else len(bl)
+                got_items = bl[1:gi]
+                got_gotos = [x for x in bl[gi + 1:] if x.startswith("at ")]
+                exp_items = []
+                for (r, d) in states[bi]:
+                    lhs, rhs, _ = g.rules[r]
+                    exp_items.append(names[lhs].strip('"') + "-->" + "".join(" %s " % names[x].strip('"') for x in rhs[:d]) + "@" +
+                                     "".join(" %s " % names[x].strip('"') for x in rhs[d:]))
+                exp_gotos = ["at %s goto %d " % (names[x].strip('"'), p2) for (q2, x, p2) in gotos if q2 == bi]
+                if got_items != exp_items:
+                    why = "listing items of state %d: %s, the state holds %s" % (bi, got_items, exp_items)
+                elif got_gotos != exp_gotos:
+                    why = "listing transitions of state %d: %s, the automaton has %s" % (bi, got_gotos, exp_gotos)
+        if why is None and "==========Show LookAhead SET===============" in listing:
+            sec = listing.split("==========Show LookAhead SET===============")[1].split("\n")
+            got = sorted(x for x in sec if ":" in x and "-->" in x)
+            exp = []
+            for (q_, r, la) in las:
+                lhs, rhs, _ = g.rules[r]
+                exp.append("%d:%s-->%s : %s" % (q_, names[lhs].strip('"'), "".join(" %s " % names[x].strip('"') for x in rhs),
+                                                 "".join(" " + names[a].strip('"') for a in (la if r != 0 else [1]))))
+            # the listing prints lookaheads in the implementation's internal order: compare as sets of symbols per line
+            def canon(s):
+                a, b = s.rsplit(" : ", 1)
+                return (a, tuple(sorted(b.split())))
+            if sorted(map(canon, got)) != sorted(map(canon, exp)):
+                why = "listing lookahead sets differ from the lookaheads used for the table: %s vs %s" % (sorted(map(canon, got))[:3], sorted(map(canon, exp))[:3])
+        if why:
+            violations.append({"key": common.finding_key({"src": c["src"], "why": why[:60]}), "what": "debug listing / DOT graph does not describe the generated parser: " + why,
+                               "replay": {"property": pid, "grammar_file": c["src"], "why": why}})
+        if len(samples) < 2 and n > 3:
+            samples.append({"case": c["id"], "states": n, "dot_node_0": nodes.get("state_0", ("", ""))[1][:200]})
+    cov = {"evaluations": nstates, "distinct_nontrivial": accepted,
+           "rule": GEN_RULE + "; per grammar the graph object returned by DrawGrammar (nodes, item texts, edges, reduce annotations, accept decoration) and the stdout of the debug mode (states, items, transitions, lookahead sets) are parsed and compared with LR0Closure / GTable / the hooked lookaheads of the same run; evaluations = states",
+           "samples": samples, "programs": accepted, "disagreements_checked": len(violations), "trusted_base": TRUSTED + ["gographviz graph object"]}
+    return common.conclude(pid, tier, C18_LEVEL, proof, ties, violations, cov,
+                           ["symbol names do not contain the renderers' own separators (| { } < > quotes)"])
+
+
+C18_THEOREMS = []
+C18_MODULES = []
+C18_LEVEL = "translation_validation"
+
+
+# ------------------------------------------------------------------------------------------- C19
+
+C19_FAILURES = {
+    "lexical error": "%token A\n%start S\n%%\nS : A ? ;\n%%\n",
+    "unterminated comment": "%token A\n%start S\n%%\nS : A /* oops ;\n%%\n",
+    "unbalanced action brace": "%token A\n%start S\n%%\nS : A { x := 1 ;\n%%\n",
+    "syntax error (no rules section)": "%token A\n%start S\n",
+    "syntax error (stray token in declarations)": "%token A\n: %start S\n%%\nS : A ;\n%%\n",
+    "undefined symbol": "%token A\n%start S\n%%\nS : A B ;\n%%\n",
+    "nonterminal without rule": "%token A\n%type <v> T\n%start S\n%%\nS : A ;\n%%\n",
+    "unproductive nonterminal": "%token A\n%start S\n%%\nS : A S ;\n%%\n",
+    "$n out of range": "%union { v int }\n%token <v> A\n%type <v> S\n%start S\n%%\nS : A { $$ = $3 } ;\n%%\n",
+    "$0": "%union { v int }\n%token <v> A\n%type <v> S\n%start S\n%%\nS : A { $$ = $0 } ;\n%%\n",
+    "truncated file": "%token A\n%start S\n%%\nS : A",
+    "empty file": "",
+}
+
+
+def check_C19(tier):
+    pid = "C19"
+    rng = random.Random(common.seed() * 1000003 + 19)
+    ok, msg = prebuild()
+    if not ok:
+        return build_failure(pid, tier, msg)
+    proof = common.prove(C19_THEOREMS, C19_MODULES)
+    work = common.tmpdir("c19")
+    cli = os.path.join(common.BIN, "yaccgo")
+    failures = dict(C19_FAILURES)
+    # random failing texts: prefixes / edits of valid files that the front end rejects
+    texts = c13_texts("quick", rng)
+    rng.shuffle(texts)
+    for i, t in enumerate(texts[:150 if tier == "quick" else 1500]):
+        failures["mutated file %d" % i] = t
+    violations, samples = [], []
+    hist = {}
+    runs = 0
+    jobs = []
+    for ki, (kind, src) in enumerate(failures.items()):
+        for target, flags in (("go", []), ("go", ["-o", "-u"]), ("typescript", [])):
+            jobs.append((ki, kind, src, target, flags))
+
+    def one(job):
+        ki, kind, src, target, flags = job
+        tag = "%d_%s_%s" % (ki, target, "".join(f.strip("-") for f in flags))
+        inp = os.path.join(work, "in_%s.y" % tag)
+        outp = os.path.join(work, "out_%s.txt" % tag)
+        open(inp, "w", encoding="utf-8").write(src)
+        before = ("PRE-EXISTING OUTPUT %s\n" % tag).encode() * 20
+        open(outp, "wb").write(before)
+        try:
+            p = subprocess.run([cli, "generate"] + flags + [target, inp, outp], stdout=subprocess.DEVNULL, stderr=subprocess.DEVNULL, timeout=60, cwd=work)
+            rc = p.returncode
+        except subprocess.TimeoutExpired:
+            rc = -9
+        after = open(outp, "rb").read() if os.path.exists(outp) else None
+        return (kind, src, target, flags, rc, before, after)
+    with ThreadPoolExecutor(max_workers=16) as ex:
+        results = list(ex.map(one, jobs))
+    for (kind, src, target, flags, rc, before, after) in results:
+        runs += 1
+        cls = "fail" if rc != 0 else "ok"
+        hist[(kind if not kind.startswith("mutated") else "mutated file") + ":" + cls] = hist.get((kind if not kind.startswith("mutated") else "mutated file") + ":" + cls, 0) + 1
+        if rc != 0:
+            if after != before:
+                violations.append({"key": common.finding_key({"src": src, "target": target, "flags": flags}),
+                                   "what": "a failed generation (%s) modified the existing output file" % kind,
+                                   "replay": {"property": pid, "grammar_file": src, "target": target, "flags": flags, "exit": rc,
+                                              "file_before_len": len(before), "file_after_len": None if after is None else len(after)}})
+        else:
+            # success: the file is complete, ending with the epilogue
+            epi = src.split("%%")[-1] if src.count("%%") >= 2 else ""
+            if after is None or not after.decode("utf-8", "replace").endswith(epi):
+                violations.append({"key": common.finding_key({"src": src, "target": target, "tail": True}),
+                                   "what": "successful generation whose output does not end with the epilogue",
+                                   "replay": {"property": pid, "grammar_file": src, "target": target, "flags": flags}})
+    samples.append({"kind": "undefined symbol", "grammar_file": C19_FAILURES["undefined symbol"], "outcomes": [r[4] for r in results if r[0] == "undefined symbol"]})
+    cov = {"evaluations": runs, "distinct_nontrivial": len(failures),
+           "rule": "every kind of input-caused failure (lexical error, unterminated comment/brace, syntax errors, undefined symbol, nonterminal without rule, unproductive nonterminal, $n out of range, $0, truncated, empty) plus prefixes/edits of valid files, x {go, go -o -u, typescript}, each with a pre-existing output file; after a non-zero exit the file must be byte-identical; after success it must end with the epilogue; distinct = input texts",
+           "samples": samples, "outcome_histogram": {k: v for k, v in sorted(hist.items())}, "trusted_base": TRUSTED + ["operating-system file semantics (os.Create truncates)"],
+           "explanation": "logic part (create comes after every fallible step) is a source fact extracted by the translator and checked in Lean against the expectation the theorem was proved for; OS behaviour is assumed"}
+    return common.conclude(pid, tier, C19_LEVEL, proof, [], violations, cov, ["the output path is writable; failures of the OS itself are out of scope"])
+
+
+C19_THEOREMS = []
+C19_MODULES = []
+C19_LEVEL = "fault_enumeration"
